@@ -1,5 +1,6 @@
 import SrProofs.Mesh
 import SrProofs.Lame
+import SrProofs.LameThermal
 
 /-!
 # C03 — tube stress solution is in equilibrium and agrees across 1D/2D/3D
@@ -9,9 +10,13 @@ Models: `SrModel.Mesh` (node numbering, connectivity and the pressure-facet rule
 (the closed-form generalised-plane-strain thick cylinder that the numerical comparison uses as its
 oracle, and the consistent nodal loads of a uniform pressure on the discretised inner surface).
 
+`SrModel.LameThermal` adds the thermo-elastic part for an ARBITRARY radial temperature profile `T(r)`
+given through its moment `I(r) = ∫_{r_i}^r T ρ dρ` (theorems `thermal_*`: traction-free surfaces,
+equilibrium, compatibility, axial force, reduction to `Lame` for uniform `T`, superposition with the
+pressure field), instantiated for the quadratic profile the harness solves (`quadratic_moment`).
+
 Not proved here (measured by `harness/c03.py` on the real solver): that scikit-fem's assembly of
-the quadrilateral/hexahedral element integrals converges to the closed form, and the agreement of
-the three abstractions for a radial temperature profile.
+the quadrilateral/hexahedral element integrals converges to the closed forms (observed order 2).
 -/
 namespace SrProps.C03
 open SrModel.Mesh SrModel.Lame Finset
@@ -269,5 +274,135 @@ example : (⟨1, 2, 3, 10, 1/4, 0, 0, 0⟩ : Prm ℝ).sr 1 = -3 ∧ (⟨1, 2, 3,
 example : (⟨1, 2, 3, 10, 1/4, 0, 0, 1/10⟩ : Prm ℝ).force 1 = 9 / 2 := by
   simp only [Prm.force, Prm.area, Prm.szbar, Prm.cA]; norm_num
 example : load1 3 (5 : ℝ) = [5, 0, 0] := by simp [load1, List.range_succ]
+
+/-! ### thermo-elastic closed form with an arbitrary radial temperature profile -/
+
+section thermal
+open SrModel.LameThermal
+
+/-- **thermal_boundary.** For any moment `I` with `I(r_i) = 0` both surfaces are traction-free:
+`σ_r(r_i) = 0` and `σ_r(r_o) = 0`. -/
+theorem thermal_boundary (P : TPrm ℝ) (I : ℝ → ℝ) (hri : 0 < P.ri) (hro : P.ri < P.ro)
+    (hI0 : I P.ri = 0) :
+    SrModel.LameThermal.sr P I P.ri = 0 ∧ SrModel.LameThermal.sr P I P.ro = 0 := by
+  have hw : w P ≠ 0 := by unfold w; nlinarith
+  exact ⟨SrModel.LameThermal.sr_inner P I hI0, SrModel.LameThermal.sr_outer P I hw (by linarith)⟩
+
+/-- **thermal_equilibrium.** For an ARBITRARY profile `T` with moment `I` (`I' = r·T`): `dsr` is the
+true derivative of `σ_r` and `r dσ_r/dr + σ_r − σ_θ = 0` at every `r ≠ 0`. -/
+theorem thermal_equilibrium (P : TPrm ℝ) (T I : ℝ → ℝ) (hri : 0 < P.ri) (hro : P.ri < P.ro)
+    (hI : ∀ r, r ≠ 0 → HasDerivAt I (r * T r) r) :
+    ∀ r, r ≠ 0 → HasDerivAt (SrModel.LameThermal.sr P I) (SrModel.LameThermal.dsr P T I r) r ∧
+      r * SrModel.LameThermal.dsr P T I r + SrModel.LameThermal.sr P I r
+        - SrModel.LameThermal.st P T I r = 0 := by
+  have hw : w P ≠ 0 := by unfold w; nlinarith
+  intro r hr
+  exact ⟨SrModel.LameThermal.sr_hasDerivAt P T I r hr hw (hI r hr),
+    SrModel.LameThermal.equilibrium_alg P T I r hr hw⟩
+
+/-- **thermal_compatibility.** With Hooke's law including the thermal strain `αT(r)`: the axial strain
+is the imposed `ε_z`, `ε_θ = u/r`, and `ε_r = du/dr` for `u = r ε_θ` (only `I' = r·T` is used, `T`
+itself need not be differentiable). -/
+theorem thermal_compatibility (P : TPrm ℝ) (T I : ℝ → ℝ) (hri : 0 < P.ri) (hro : P.ri < P.ro)
+    (hE : P.E ≠ 0) (hnu : P.nu ≠ 1) (hI : ∀ r, r ≠ 0 → HasDerivAt I (r * T r) r) :
+    (∀ r, (SrModel.LameThermal.sz P T I r
+        - P.nu * (SrModel.LameThermal.sr P I r + SrModel.LameThermal.st P T I r)) / P.E
+        + P.al * T r = P.ez) ∧
+    (∀ r, r ≠ 0 → SrModel.LameThermal.et P T I r = SrModel.LameThermal.u P T I r / r) ∧
+    (∀ r, r ≠ 0 → HasDerivAt (SrModel.LameThermal.u P T I) (SrModel.LameThermal.er P T I r) r) := by
+  have hw : w P ≠ 0 := by unfold w; nlinarith
+  have hnu' : 1 - P.nu ≠ 0 := fun h => hnu (by linarith)
+  exact ⟨fun r => SrModel.LameThermal.hooke_z P T I r hE, SrModel.LameThermal.et_eq_u_div P T I,
+    fun r hr => SrModel.LameThermal.u_hasDerivAt P T I r hr hw hE hnu' (hI r hr)⟩
+
+/-- **thermal_axial_force.** `G(r) = 2π((2νk I(r_o)/w + Eε_z) r²/2 − k I(r))` is an antiderivative of
+`2πr σ_z(r)` and `G(r_o) − G(r_i) = π w E ε_z − 2π α E I(r_o)` is the model's `force`. -/
+theorem thermal_axial_force (P : TPrm ℝ) (T I : ℝ → ℝ) (pi : ℝ) (hri : 0 < P.ri) (hro : P.ri < P.ro)
+    (hnu : P.nu ≠ 1) (hI : ∀ r, r ≠ 0 → HasDerivAt I (r * T r) r) (hI0 : I P.ri = 0) :
+    let G : ℝ → ℝ := fun r =>
+      2 * pi * ((kfac P * 2 * P.nu * I P.ro / w P + P.E * P.ez) * r * r / 2 - kfac P * I r)
+    (∀ r, r ≠ 0 → HasDerivAt G (2 * pi * r * SrModel.LameThermal.sz P T I r) r) ∧
+    G P.ro - G P.ri = SrModel.LameThermal.force P I pi := by
+  have hw : w P ≠ 0 := by unfold w; nlinarith
+  have hnu' : 1 - P.nu ≠ 0 := fun h => hnu (by linarith)
+  exact ⟨fun r hr => Gz_hasDerivAt P T I pi r hr hw hnu' (hI r hr), Gz_diff P I pi hw hnu' hI0⟩
+
+/-- **thermal_uniform_is_lame.** For a uniform temperature change `T ≡ ΔT` (moment
+`ΔT (r² − r_i²)/2`) the thermal field is `σ_r = σ_θ = 0`, `σ_z = E(ε_z − αΔT)`: exactly
+`SrModel.Lame`'s closed form with `p = 0`. -/
+theorem thermal_uniform_is_lame (P : TPrm ℝ) (dT : ℝ) (hri : 0 < P.ri) (hro : P.ri < P.ro) :
+    let T : ℝ → ℝ := fun _ => dT
+    let I : ℝ → ℝ := fun r => dT * (r * r - P.ri * P.ri) / 2
+    let L : Prm ℝ := ⟨P.ri, P.ro, 0, P.E, P.nu, P.al, dT, P.ez⟩
+    I P.ri = 0 ∧ (∀ r, HasDerivAt I (r * T r) r) ∧
+    ∀ r, r ≠ 0 →
+      SrModel.LameThermal.sr P I r = 0 ∧ SrModel.LameThermal.st P T I r = 0 ∧
+      SrModel.LameThermal.sz P T I r = P.E * (P.ez - P.al * dT) ∧
+      SrModel.LameThermal.sr P I r = L.sr r ∧ SrModel.LameThermal.st P T I r = L.st r ∧
+      SrModel.LameThermal.sz P T I r = L.sz r := by
+  have hw : w P ≠ 0 := by unfold w; nlinarith
+  intro T I L
+  refine ⟨by simp only [I]; ring, ?_, ?_⟩
+  · intro r
+    have h2 : HasDerivAt (fun x : ℝ => x * x) (1 * r + r * 1) r := (hasDerivAt_id' r).mul (hasDerivAt_id' r)
+    have h : HasDerivAt (fun x : ℝ => dT * (x * x - P.ri * P.ri) / 2) _ r :=
+      ((h2.sub_const (P.ri * P.ri)).const_mul dT).div_const 2
+    exact h.congr_deriv (by simp only [T]; ring)
+  · intro r hr
+    have h1 : SrModel.LameThermal.sr P I r = 0 := uniform_sr P dT r hr hw
+    have h2 : SrModel.LameThermal.st P T I r = 0 := uniform_st P dT r hr hw
+    have h3 : SrModel.LameThermal.sz P T I r = P.E * (P.ez - P.al * dT) := by
+      unfold SrModel.LameThermal.sz; rw [h1, h2]; simp only [T]; ring
+    have l1 : L.sr r = 0 := by simp [L, Prm.sr, Prm.cA, Prm.cB]
+    have l2 : L.st r = 0 := by simp [L, Prm.st, Prm.cA, Prm.cB]
+    have l3 : L.sz r = P.E * (P.ez - P.al * dT) := by
+      unfold Prm.sz; rw [l1, l2]; simp only [L]; ring
+    exact ⟨h1, h2, h3, by rw [h1, l1], by rw [h2, l2], by rw [h3, l3]⟩
+
+/-- **quadratic_moment.** `Iq` is the moment of the quadratic profile `Tq` from `r_i`:
+`Iq(r_i) = 0` and `Iq' = r·Tq` everywhere, so the theorems above apply to the profile of the harness. -/
+theorem quadratic_moment (ri c0 c1 c2 : ℝ) :
+    Iq ri c0 c1 c2 ri = 0 ∧ ∀ r, HasDerivAt (Iq ri c0 c1 c2) (r * Tq c0 c1 c2 r) r :=
+  ⟨Iq_inner ri c0 c1 c2, Iq_hasDerivAt ri c0 c1 c2⟩
+
+/-- non-vacuity: `thermal_equilibrium` and `thermal_boundary` instantiated with the quadratic profile -/
+example (P : TPrm ℝ) (c0 c1 c2 : ℝ) (hri : 0 < P.ri) (hro : P.ri < P.ro) (r : ℝ) (hr : r ≠ 0) :
+    r * SrModel.LameThermal.dsr P (Tq c0 c1 c2) (Iq P.ri c0 c1 c2) r
+      + SrModel.LameThermal.sr P (Iq P.ri c0 c1 c2) r
+      - SrModel.LameThermal.st P (Tq c0 c1 c2) (Iq P.ri c0 c1 c2) r = 0 :=
+  (thermal_equilibrium P (Tq c0 c1 c2) (Iq P.ri c0 c1 c2) hri hro
+    (fun r _ => (quadratic_moment P.ri c0 c1 c2).2 r) r hr).2
+example (c0 c1 c2 : ℝ) :
+    SrModel.LameThermal.sr (⟨1, 2, 10, 1/4, 1/100, 0⟩ : TPrm ℝ) (Iq 1 c0 c1 c2) 1 = 0 ∧
+    SrModel.LameThermal.sr (⟨1, 2, 10, 1/4, 1/100, 0⟩ : TPrm ℝ) (Iq 1 c0 c1 c2) 2 = 0 :=
+  thermal_boundary (⟨1, 2, 10, 1/4, 1/100, 0⟩ : TPrm ℝ) (Iq 1 c0 c1 c2) (by norm_num) (by norm_num)
+    (quadratic_moment 1 c0 c1 c2).1
+
+/-- **thermal_superposition.** The SUM of the pressure field of `SrModel.Lame` (`ΔT = 0`, same radii)
+and the thermal field: `σ_r(r_i) = −p`, `σ_r(r_o) = 0`, and with the true derivative
+`r dσ_r/dr + σ_r − σ_θ = 0` at every `r ≠ 0`. -/
+theorem thermal_superposition (P : TPrm ℝ) (L : Prm ℝ) (T I : ℝ → ℝ) (hLi : L.ri = P.ri) (hLo : L.ro = P.ro)
+    (hri : 0 < P.ri) (hro : P.ri < P.ro)
+    (hI : ∀ r, r ≠ 0 → HasDerivAt I (r * T r) r) (hI0 : I P.ri = 0) :
+    L.sr P.ri + SrModel.LameThermal.sr P I P.ri = -L.p ∧
+    L.sr P.ro + SrModel.LameThermal.sr P I P.ro = 0 ∧
+    ∀ r, r ≠ 0 →
+      HasDerivAt (fun x => L.sr x + SrModel.LameThermal.sr P I x)
+        (L.dsr r + SrModel.LameThermal.dsr P T I r) r ∧
+      r * (L.dsr r + SrModel.LameThermal.dsr P T I r)
+        + (L.sr r + SrModel.LameThermal.sr P I r)
+        - (L.st r + SrModel.LameThermal.st P T I r) = 0 := by
+  have hb := thermal_boundary P I hri hro hI0
+  have hLw : L.ro * L.ro - L.ri * L.ri ≠ 0 := by rw [hLi, hLo]; nlinarith
+  have h1 := SrModel.Lame.sr_inner L hLw (by rw [hLi]; linarith)
+  have h2 := SrModel.Lame.sr_outer L hLw (by rw [hLo]; linarith)
+  rw [hLi] at h1; rw [hLo] at h2
+  refine ⟨by rw [h1, hb.1]; ring, by rw [h2, hb.2]; ring, ?_⟩
+  intro r hr
+  have he := thermal_equilibrium P T I hri hro hI r hr
+  refine ⟨(SrModel.Lame.sr_hasDerivAt L r hr).add he.1, ?_⟩
+  linear_combination SrModel.Lame.equilibrium_alg L r hr + he.2
+
+end thermal
 
 end SrProps.C03
